@@ -119,6 +119,16 @@ func (value Value) Compare(other Value) int {
 		}
 
 	case TypeIDFloat:
+		// Total order: NaN equals NaN and sorts before every other float; -0.0 equals +0.0.
+		leftNaN, rightNaN := value.Float != value.Float, other.Float != other.Float
+		if leftNaN || rightNaN {
+			if leftNaN && rightNaN {
+				return 0
+			} else if leftNaN {
+				return -1
+			}
+			return 1
+		}
 		if value.Float < other.Float {
 			return -1
 		} else if value.Float > other.Float {
@@ -260,7 +270,14 @@ func (value Value) hash(hash uint64) uint64 {
 		hash = fnv1a.AddUint64(hash, uint64(value.Int))
 
 	case TypeIDFloat:
-		hash = fnv1a.AddUint64(hash, math.Float64bits(value.Float))
+		// Values that compare equal must hash equally: one bit pattern for both zeros and for all NaNs.
+		f := value.Float
+		if f == 0 {
+			f = 0
+		} else if f != f {
+			f = math.NaN()
+		}
+		hash = fnv1a.AddUint64(hash, math.Float64bits(f))
 
 	case TypeIDBoolean:
 		if value.Boolean {
